@@ -119,6 +119,28 @@ def run(ck):
         for cwd, o in outs.items():
             if o != alone:
                 ck.report("cwd-dependent", "the report depends on the working directory", dict(cwd=cwd, alone=alone[:300], got=o[:300]))
+        # the process environment: nothing in it but NO_COLOR (for the colour decision) may change the report - in particular not the
+        # variables cargo exports to the processes it starts, which name the RUNNING package, not the one the assertion was compiled in
+        other = os.path.join(scratch, "otherpkg")
+        os.makedirs(os.path.join(other, "src"), exist_ok=True)
+        open(os.path.join(other, fn), "w").write("// a different file of the same name in another package\n" * 6)
+        envs = {"CARGO_MANIFEST_DIR=<another package>": {"CARGO_MANIFEST_DIR": other}, "CARGO_MANIFEST_DIR=<missing directory>": {"CARGO_MANIFEST_DIR": "/nonexistent/pkg"},
+                "CARGO_MANIFEST_DIR=<empty>": {"CARGO_MANIFEST_DIR": ""}, "cargo's other variables": {"CARGO": "/usr/bin/cargo", "CARGO_PKG_NAME": "otherpkg", "CARGO_CRATE_NAME": "otherpkg", "CARGO_WORKSPACE_DIR": other, "CARGO_TARGET_DIR": other, "OUT_DIR": other},
+                "PWD / HOME / TMPDIR": {"PWD": other, "HOME": other, "TMPDIR": other}, "TERM=dumb": {"TERM": "dumb"}, "TERM=xterm-256color COLORTERM=truecolor": {"TERM": "xterm-256color", "COLORTERM": "truecolor"},
+                "CLICOLOR_FORCE=1 FORCE_COLOR=1 CARGO_TERM_COLOR=always": {"CLICOLOR_FORCE": "1", "FORCE_COLOR": "1", "CARGO_TERM_COLOR": "always", "CLICOLOR": "1"},
+                "RUST_BACKTRACE=full RUST_LOG=trace": {"RUST_BACKTRACE": "full", "RUST_LOG": "trace"}, "LANG=tr_TR.UTF-8 LC_ALL=C": {"LANG": "tr_TR.UTF-8", "LC_ALL": "C"},
+                "RUST_TEST_THREADS NEXTEST": {"RUST_TEST_THREADS": "1", "NEXTEST": "1", "NEXTEST_RUN_ID": "x"}}
+        edist = {}
+        for ename, extra_env in envs.items():
+            e2 = dict(ENV)
+            e2.update(extra_env)
+            o = ck.rt_batch([req], env=e2)[0]
+            edist[ename + (": same report" if o == alone else ": DIFFERENT report")] = 1
+            if o != alone:
+                ck.report("environment-dependent:" + ename.split("=")[0].split(" ")[0], "the report depends on the environment of the process (%s)" % ename,
+                          dict(environment=extra_env, alone=alone[:400], got=o[:400]))
+        ck.corr_record("T5 process environment (the same failure formatted with cargo's run-time variables naming another package, other terminal / colour-forcing / locale variables): identical report",
+                       len(envs), len(envs), 0, edist, samples=[dict(environment=list(envs)[0])], exhaustive=True, rule="%d environments, stderr not a terminal" % len(envs))
         # history: the same failure after many other failures (other files, same file with other entries, unreadable files)
         hist = []
         for k in range(40):
